@@ -607,7 +607,7 @@ def warm_up(U: Universe, rng, ctx=None) -> list[str]:
     return order
 
 
-def remodelled_class(U: Universe, tag: str):
+def remodelled_class(U: Universe, tag: str, leaf_first: bool = False):
     """One class name, two definitions in one module (a model factory called twice, a re-run notebook cell):
     the first definition is used, then the class statement is executed again with two more child fields.
     Returns (old class, new class, a leaf class)."""
@@ -615,10 +615,13 @@ def remodelled_class(U: Universe, tag: str):
     name = f"{P}Remodel{tag}"
     src1 = f"@dataclass(frozen=True)\nclass {name}({P}Expr):\n    first: {P}Expr | None = None\n    v: int = 0\n"
     src2 = src1 + f"    second: tuple[{P}Expr, ...] = ()\n    third: {P}Expr | None = None\n"
+    if leaf_first:
+        # (the first definition has no child fields at all)
+        src1 = f"@dataclass(frozen=True)\nclass {name}({P}Expr):\n    v: int = 0\n"
     exec(compile(src1, f"<remodel {name} 1>", "exec", dont_inherit=True), U.module.__dict__)
     old = U.module.__dict__[name]
     leaf = U.cls[f"{P}Leaf"]
-    o = old(first=leaf(v=1), v=2)
+    o = old(v=2) if leaf_first else old(first=leaf(v=1), v=2)
     list(o.dfs()), o.children, list(o.get_properties()), o.duplicate().detach(), o.to_tree()
     o.detach()
     exec(compile(src2, f"<remodel {name} 2>", "exec", dont_inherit=True), U.module.__dict__)
